@@ -406,7 +406,9 @@ pub fn gen_design(rng: &mut Rng, o: &GenOpts) -> Design {
     for (i, l) in locs.iter().enumerate() {
         let mut m = Master { name: format!("M{i}"), style: if i == 0 { "Regular".into() } else { format!("Style{i}") }, loc: l.clone(), ..Default::default() };
         m.glyphs = if i == 0 { base.clone() } else {
-            base.iter().map(|(n, g)| (n.clone(), vary_glyph(rng, g, 60, false))).collect()
+            // a master may redraw a glyph exactly like the default (common in real sources: only some glyphs
+            // change along an axis); such a master still pins the glyph at its location
+            base.iter().map(|(n, g)| (n.clone(), if rng.chance(1, 6) { g.clone() } else { vary_glyph(rng, g, 60, false) })).collect()
         };
         m.info = base_info.iter().map(|(k, v)| (k.clone(), if o.metrics_vary && i > 0 && rng.chance(2, 3) { v + rng.range(-40, 40) as f64 } else { *v })).collect();
         d.masters.push(m);
